@@ -7,6 +7,7 @@ EXTENDS MechSession, TLC, Json
 NamesQ == {"a", "b"}
 NamesT == {"a", "b", "c"}
 LitsFull == {Sc(5), Mat(1, 2), Rec(1, 2), Tup(1, 2), SetV, TblV}
+LitsOp == {Sc(5), Mat(1, 2), Rec(1, 2), TblV}
 LitsSmall == {Sc(5), Mat(1, 2), Tup(1, 2)}
 
 View == <<store, mut>>
